@@ -186,7 +186,10 @@ def once_rule(r, f, callee, label):
             return
     # never on an error path
     for e in sorted(E):
-        if C.reach_after(f, e) & fin:
+        # value-sensitive: what the error path *can execute* given that the residual is an Err (a helper spliced into f
+        # hands its Err to f's own `?`, whose Continue edge is not part of the error path)
+        after = Sccp(f).run([(e, {})]).exec_blocks - {e} if f.blocks[e]["term"]["k"] == "call" else C.reach_after(f, e)
+        if after & fin:
             r.bad(key, "%s is reachable from the error path at %s" % (label, f.blocks[e]["term"].get("loc")),
                   fn=f, loc=f.blocks[e]["term"].get("loc"))
             return
